@@ -93,7 +93,12 @@ def main():
             issued_total[0] += 1
         t0 = time.monotonic()
         try:
-            reactor.callFromThread(cb, p + 1, k + 1, idle, t0, then, raises)
+            if (k + p) % 3 == 1:      # callFromThread(f, *args, **kw): both calling conventions, mixed per thread
+                reactor.callFromThread(cb, p + 1, k + 1, idle=idle, t0=t0, then=then, raises=raises)
+            elif (k + p) % 3 == 2:
+                reactor.callFromThread(cb, p + 1, k + 1, idle, t0, raises=raises, then=then)
+            else:
+                reactor.callFromThread(cb, p + 1, k + 1, idle, t0, then, raises)
             issued[p] += 1
         except BaseException:
             excs[p] += 1
